@@ -2,6 +2,36 @@
 LEVEL = "model_checking"
 
 
+def xlsb_step(ctx, formats):
+    """xlsb style-table path (tla/fmt/XlsbStyles.tla): BrtFmt -> BrtXF numFmtId -> iStyleRef, every
+    numeric cell encoding (BrtCellReal, BrtFmlaNum, BrtCellRk int / int x100 / double / double x100).
+    sensitivity: (bin/mutant C10 '<sed>@<file>', quick tier; all KILLED)
+    sensitivity:  s/fmt @ Some(CellFormat::DateTime | CellFormat::TimeDelta) => {/fmt @ Some(CellFormat::DateTime) => {/@src/xlsb/cells_reader.rs
+    sensitivity:  s/let fmt_code = read_u16(\&buf\[2..4\]);/let fmt_code = read_u16(\&buf[0..2]);/@src/xlsb/mod.rs
+    sensitivity:  s/let style_ref = u32::from_le_bytes(\[buf\[4\], buf\[5\], buf\[6\], 0\]);/let style_ref = u32::from_le_bytes([buf[4], 0, 0, 0]);/@src/xlsb/mod.rs
+    sensitivity:  s/self.is_1904 = \&buf\[0\] \& 0x1 != 0;/self.is_1904 = \&buf[0] \& 0x2 != 0;/@src/xlsb/mod.rs
+    sensitivity:  s/0x0269 => {/0x0272 | 0x0269 => {/@src/xlsb/mod.rs        (style XFs taken for cell XFs)
+    """
+    ctx.rules.append(
+        "xlsb: MC_XlsbStyles enumerates style tables (BrtFmt ids below/above 164 incl. same-class overrides of "
+        "built-in date ids, in every order; 1 or 3 style XFs; cell XFs; both date systems), each materialised "
+        "with one cell per (cell XF, numeric encoding); every MC_NumFmt format is also stored as BrtFmt of real "
+        "xlsb workbooks (6 encodings, two layouts, both date systems) and every built-in id as BrtXF numFmtId")
+    ctx.assumptions.append("xlsb: a BrtFmt redefining a built-in date/time id with a string of another class is not asserted")
+    a = ctx.tlc("fmt", "MC_XlsbStyles", "MC_XlsbStyles_asis.cfg", workers=2, timeout=300, xmx="2g", allow_violation=True)
+    ctx.states -= a["distinct"]
+    ctx.transitions -= a["generated"]
+    ctx.extra["refuted:MC_XlsbStyles_asis.cfg"] = bool(a["violated"])
+    if not a["violated"]:
+        ctx.fail("selftest:asis-model-not-refuted", {"kind": "selftest", "info": "MC_XlsbStyles_asis.cfg (integer RK ignores the style) was not refuted", "tlc_output": a["out"]})
+    s = ctx.tlc("fmt", "MC_XlsbStyles", ctx.pick("MC_XlsbStyles_quick.cfg", "MC_XlsbStyles_thorough.cfg"),
+                workers=ctx.pick(4, 8), timeout=ctx.pick(300, 1800), xmx=ctx.pick("3g", "8g"))
+    if "REPLAY" in s["tags"]:
+        ctx.replay("xlsbstyles", s["tags"]["REPLAY"], timeout=1800)
+    if formats:
+        ctx.replay("numfmt_xlsb", formats, extra=["--maxid", ctx.pick(300, 2000)], timeout=1800)
+
+
 def run(ctx):
     ctx.rules.append(
         "MC_NumFmt: token-level grammar machine for number formats (sections; bracket prefixes colour/"
@@ -12,7 +42,7 @@ def run(ctx):
         "style-table layouts, three numeric encodings); all strings <= L over the scanner alphabet and all "
         "built-in ids are validated against the spec as a trace; non-trivial = more than one token")
     ctx.assumptions += ["formats outside the generated grammar (aaa/e/g/b tokens, '*' fill, date before elapsed token) are not asserted",
-                        "xls/xlsb style tables are covered once their materialisers are merged"]
+                        "xls style tables are covered once their materialiser is merged"]
     if ctx.quick:
         r = ctx.tlc("fmt", "MC_NumFmt", "MC_NumFmt_quick.cfg", workers=6, timeout=600, xmx="4g")
         if "REPLAY" in r["tags"]:
@@ -22,6 +52,7 @@ def run(ctx):
         r = ctx.tlc("fmt", "MC_NumFmt", "MC_NumFmt_thorough_dump.cfg", workers=12, timeout=3000, xmx="16g")
         if "REPLAY" in r["tags"]:
             ctx.replay("numfmt", r["tags"]["REPLAY"])
+    xlsb_step(ctx, r["tags"].get("REPLAY"))
     # built-in ids through real files
     out = ctx.work + "/builtin.in"
     open(out, "w").write("")
